@@ -96,7 +96,7 @@ let cpak_string (p : Model.cpak) =
 let handle_src (w : Stdlib.String.t list) : Stdlib.String.t =
   match w with
   | ["aes"; d; k; b] -> sres_bytes (Model.src_aes (d = "e") (unhex k) (unhex b))
-  | [("mode" | "modes"); d; t; k; iv; data] ->
+  | [("mode" | "modes" | "modeu"); d; t; k; iv; data] ->
       let iv16 = Model.firstn (nat_of_int 16) (unhex iv) in
       (* through the translated factory and constructor chain (AesFactory::createCryMaster); Model.src_mode is the same
          without the factory and is what SRC_mode_stream is stated for *)
@@ -266,7 +266,7 @@ let handle (w : Stdlib.String.t list) : Stdlib.String.t =
       let k = unhex k and b = unhex b in
       hex (if !spec then (if d = "e" then Model.cipher k b else Model.invCipher k b)
            else (if d = "e" then Model.aes_enc k b else Model.aes_dec k b))
-  | [("mode" | "modes"); d; t; k; iv; data] ->
+  | [("mode" | "modes" | "modeu"); d; t; k; iv; data] ->
       let k = unhex k and iv = unhex iv and bs = blocks (unhex data) in
       let t = n_of_int (int_of_string t) in
       let iv16 = Model.firstn (nat_of_int 16) iv in
